@@ -1,5 +1,7 @@
 (* C09 — unreadable files in a PEL directory never disturb the output for the others. *)
 From Coq Require Import List NArith Bool Arith Sorting.Permutation.
+From PV Require Gen.CleanGen Spec.PublishedSkeletons Proofs.CleanSkelFacts.
+From PV Require Import Model.Clean.
 From PV Require Import Base.Bytes Base.Lit Base.Json Base.TextOrder Model.Cli Model.Pretty
                        Proofs.TextOrderFacts Proofs.CliFacts Proofs.PrettyFacts.
 Import ListNotations.
@@ -44,6 +46,33 @@ Theorem C09_unreadable : forall d oc c names good junk,
   mode_all_o d c oc names = mode_all_o d c oc good.
 Proof. exact unreadable_invisible_modes. Qed.
 Print Assumptions C09_unreadable.
+
+(* ---- the tie to the source text: the per-file exception barrier ----
+   Gen/CleanGen.v holds the effect skeletons of openPELFile and of the per-file loops of the directory modes, extracted on every run
+   (harness/extract_clean.py).  They equal the published skeletons, in which (a) the helper opens under try / except OSError and answers
+   None after a diagnostic on stderr, and (b) inside every per-file loop whatever prints, writes, removes or opens a file without the
+   helper sits under try / except Exception with a handler that only reports on stderr. *)
+Theorem C09_source_barriers :
+  Gen.CleanGen.ok_clean = true /\
+  Gen.CleanGen.sk_openPELFile = Spec.PublishedSkeletons.sk_openPELFile /\
+  Gen.CleanGen.sk_extractAllPELsData = Spec.PublishedSkeletons.sk_extractAllPELsData /\
+  Gen.CleanGen.sk_printPELCount = Spec.PublishedSkeletons.sk_printPELCount /\
+  Gen.CleanGen.sk_extractAndSummarizePEL = Spec.PublishedSkeletons.sk_extractAndSummarizePEL /\
+  Gen.CleanGen.sk_parsePelFromPLID = Spec.PublishedSkeletons.sk_parsePelFromPLID /\
+  Gen.CleanGen.sk_parsePelFromSRCID = Spec.PublishedSkeletons.sk_parsePelFromSRCID /\
+  Gen.CleanGen.sk_parsePelFromBmcID = Spec.PublishedSkeletons.sk_parsePelFromBmcID.
+Proof. repeat split; reflexivity. Qed.
+Print Assumptions C09_source_barriers.
+
+Theorem C09_barriers_hold :
+  (CleanSkelFacts.guarded false false Spec.PublishedSkeletons.sk_extractAllPELsData && CleanSkelFacts.guarded false false Spec.PublishedSkeletons.sk_printPELCount &&
+   CleanSkelFacts.guarded false false Spec.PublishedSkeletons.sk_parsePelFromPLID && CleanSkelFacts.guarded false false Spec.PublishedSkeletons.sk_parsePelFromSRCID &&
+   CleanSkelFacts.guarded false false Spec.PublishedSkeletons.sk_parsePelFromBmcID && CleanSkelFacts.guarded true false Spec.PublishedSkeletons.sk_extractAndSummarizePEL &&
+   CleanSkelFacts.guarded true false Spec.PublishedSkeletons.sk_json = true) /\
+  Spec.PublishedSkeletons.sk_openPELFile =
+    SSeq [STry [79;83;69;114;114;111;114] (SSeq [SOpenRaw; SReturnV (L "open(file, 'rb')")]) (SSeq [SStderr; SReturn false])].
+Proof. split; [exact CleanSkelFacts.directory_modes_guarded|exact CleanSkelFacts.open_helper_shape]. Qed.
+Print Assumptions C09_barriers_hold.
 
 (* the --all-pels output is one JSON array whatever the documents are (C06) *)
 Theorem C09_all_is_one_array : forall docs tds, Forall2 complete docs tds ->
